@@ -29,6 +29,7 @@ pub struct Outcome {
     pub entropy_calls: u64,
     pub mono_reads: u64,
     pub clock_jumps: u64,
+    pub poisoned: u64,
 }
 
 impl Outcome {
@@ -63,7 +64,7 @@ impl Outcome {
     /// complete form (file contents as hex) for crossing a process boundary
     fn to_full_json(&self) -> Value {
         let files: BTreeMap<String, String> = self.files.iter().map(|(k, v)| (k.clone(), v.iter().map(|b| format!("{:02x}", b)).collect::<String>())).collect();
-        json!({"status": self.status, "files": files, "diag": self.diag, "panic": self.panic, "canary": self.canary, "entropy_calls": self.entropy_calls, "mono_reads": self.mono_reads, "clock_jumps": self.clock_jumps})
+        json!({"status": self.status, "files": files, "diag": self.diag, "panic": self.panic, "canary": self.canary, "entropy_calls": self.entropy_calls, "mono_reads": self.mono_reads, "clock_jumps": self.clock_jumps, "poisoned": self.poisoned})
     }
     fn from_full_json(v: &Value) -> Option<Outcome> {
         let mut files = BTreeMap::new();
@@ -81,6 +82,7 @@ impl Outcome {
             entropy_calls: v.get("entropy_calls")?.as_u64()?,
             mono_reads: v.get("mono_reads").and_then(|x| x.as_u64()).unwrap_or(0),
             clock_jumps: v.get("clock_jumps").and_then(|x| x.as_u64()).unwrap_or(0),
+            poisoned: v.get("poisoned").and_then(|x| x.as_u64()).unwrap_or(0),
         })
     }
 }
@@ -200,6 +202,7 @@ pub fn run_build(project: &Project, faults: &[Fault], entropy_seed: u64, style: 
             entropy_calls: 0,
             mono_reads: 0,
             clock_jumps: 0,
+            poisoned: 0,
         },
     }
 }
@@ -260,6 +263,7 @@ fn build_here(project: &Project, faults: &[Fault], style: u64) -> Outcome {
         let canary: String = canary.into_iter().collect();
         let calls = entropy::calls();
         let (mono_reads, clock_jumps) = (entropy::monotonic_reads(), entropy::clock_jumps());
+        let poisoned = entropy::poisoned_bytes();
         Outcome {
             status,
             files,
@@ -269,6 +273,7 @@ fn build_here(project: &Project, faults: &[Fault], style: u64) -> Outcome {
             entropy_calls: calls,
             mono_reads,
             clock_jumps,
+            poisoned,
         }
     }
 }
@@ -296,6 +301,7 @@ pub fn run_build_scheduled(project: &Project, faults: &[Fault], entropy_seed: u6
             entropy_calls: 0,
             mono_reads: 0,
             clock_jumps: 0,
+            poisoned: 0,
         },
     };
     (o, tasks, switches)
@@ -716,6 +722,7 @@ fn replay(cli: &Cli, path: &Path) -> i32 {
 
 #[derive(Default)]
 struct Acc {
+    poisoned: u64,
     mono_reads: u64,
     clock_jumps: u64,
     builds: u64,
@@ -857,6 +864,7 @@ pub fn main(cli: &Cli) -> i32 {
                 h = rng::fnv64_extend(h, &o.digest().to_le_bytes());
                 acc.entropy_calls += o.entropy_calls;
                 acc.mono_reads += o.mono_reads;
+                acc.poisoned += o.poisoned;
                 acc.clock_jumps += o.clock_jumps;
                 if o.diag.contains("failed to create") {
                     acc.write_faults_fired += 1;
@@ -938,6 +946,7 @@ pub fn main(cli: &Cli) -> i32 {
             t.samples.extend(a.samples);
             t.entropy_calls += a.entropy_calls;
             t.mono_reads += a.mono_reads;
+            t.poisoned += a.poisoned;
             t.clock_jumps += a.clock_jumps;
             t.projects_with_write_faults += a.projects_with_write_faults;
             t.write_faults_fired += a.write_faults_fired;
@@ -1215,7 +1224,7 @@ pub fn main(cli: &Cli) -> i32 {
     ev.set("interleaving_measure", json!("distinct iteration orders of an 8-element canary HashSet created under each simulated process's keys"));
     ev.set("result_kinds", json!(acc.status_counts));
     ev.set("project_kinds", json!(acc.kinds));
-    ev.set("fault_kinds_injected", json!({"hash_seed_change": acc.builds, "entropy_calls_served": acc.entropy_calls, "projects_with_output_write_faults (enospc/eacces on an output file, same plan for all seeds)": acc.projects_with_write_faults, "builds_that_failed_writing": acc.write_faults_fired, "monotonic_clock_reads_by_simulated_processes (one process in three has a 30 s jump planned at one of its first six reads)": acc.mono_reads, "clock_jumps_observed": acc.clock_jumps}));
+    ev.set("fault_kinds_injected", json!({"hash_seed_change": acc.builds, "entropy_calls_served": acc.entropy_calls, "projects_with_output_write_faults (enospc/eacces on an output file, same plan for all seeds)": acc.projects_with_write_faults, "builds_that_failed_writing": acc.write_faults_fired, "monotonic_clock_reads_by_simulated_processes (one process in three has a 30 s jump planned at one of its first six reads)": acc.mono_reads, "clock_jumps_observed": acc.clock_jumps, "bytes_of_fresh_allocations_filled_with_the_process_pattern": acc.poisoned}));
     ev.set(
         "panics_under_all_seeds_not_judged_here",
         json!(acc.panics_all_seeds),
@@ -1226,7 +1235,7 @@ pub fn main(cli: &Cli) -> i32 {
     ev.set("simulated_time_ms", json!(0));
     ev.set("components", json!({
         "real": ["mos::commands::build_command", "mos::config", "mos::diagnostic_emitter (buffered writer)", "mos-core parser/codegen/io (binary writer, listing, vice symbols)", "codespan-reporting", "std HashMap/HashSet with RandomState"],
-        "simulated": ["OS entropy (getrandom interposed, per-thread seed)", "disk (fs-err shim on an in-memory tree)", "process boundary (one fresh OS thread per simulated process)"],
+        "simulated": ["OS entropy (getrandom interposed, per-thread seed)", "process id, time of day, monotonic clock with a jump (getpid / clock_gettime interposed)", "contents of fresh allocations (global allocator of the harness binary)", "disk (fs-err shim on an in-memory tree)", "process boundary (one fresh OS thread per simulated process; two real child processes per project; thread stage: one shuttle execution per build, std::thread/sync routed through the scheduler)"],
         "not_run": ["main() argument parsing and mos.toml discovery", "real stdout"]
     }));
     ev.assumptions = vec![
